@@ -50,7 +50,7 @@ TEXT = {
          TRUST, "Coq proof (token theorem over all histories) + differential correspondence + monitor"),
  "C17": ("Theorems: memrecordstore refines the reference store for every operation sequence including caller mutations (simulation relation); paging theorem for all contents, filters, orders and page sizes. Correspondence: the real adapter on exhaustive short and random long sequences.",
          TRUST, "Coq proof (refinement by simulation, induction over op sequences) + differential correspondence"),
- "C18": ("Theorems: sqlstore.Store as a statement sequence over a transactional row store: for every failure position the committed database is unchanged and an error is returned; without failure exactly the record row and one outbox row are committed; the committed db abstracts to the reference store step; placeholders = arguments. Correspondence: the real sqlstore/sqltimeout on sqlmini (recording database/sql driver + in-process engine) with a failure at every statement; statement-log check; cross-check of the extracted model against the committed rows.",
+ "C18": ("Theorems: sqlstore.Store as a statement sequence over a transactional row store: for every failure position the committed database is unchanged and an error is returned; without failure exactly the record row and one outbox row are committed; the committed db abstracts to the reference store step; placeholders = arguments; the statement List builds with whereBuilder, read as SQL (OR weaker than AND, parentheses, placeholders in textual order, OFFSET then LIMIT), selects exactly the reference List page for every filter combination, order, limit and offset (C18_list_statement_meaning), and would not without the parentheses (C18_grouping_matters). Correspondence: the real sqlstore/sqltimeout on sqlmini (recording database/sql driver + in-process engine) with a failure at every statement; statement-log check; the token text and bound arguments of every List statement compared with the model's list_stmt; cross-check of the extracted model against the committed rows.",
          "PARTIAL: MySQL itself (isolation, datetime ties, collation) is replaced by sqlmini, as the property allows ('a reference SQL engine'). " + TRUST,
          "Coq proof (statement-level atomicity for all failure positions + refinement) + differential correspondence"),
  "C19": ("Theorems: memstreamer refines the reference stream (log + position per name) for every interleaving of send/new receiver/recv/ack/reconnect; delivery from the position, in send order, redelivery until ack. Domain: one topic per receiver name. Correspondence: exhaustive short and random sequences on the real adapter.",
